@@ -227,7 +227,7 @@ use anchor_lang::Discriminator;
 use num_bigint::BigUint;
 use num_traits::ToPrimitive;
 
-fn fee_of(tf: Option<(u16, u64)>, z: u64) -> u64 {
+pub fn fee_of(tf: Option<(u16, u64)>, z: u64) -> u64 {
     match tf {
         None => 0,
         Some((bp, max)) => model_fee(&FeeSched { epoch: 0, max, bp }, z),
